@@ -238,7 +238,7 @@ class Real:
             cells.allow_none = c["allow_none"]
 
     def op_set_cells_formula(self, path, name, c):
-        self.space(path).cells[name].formula = cells_source(c, name=name)
+        self.space(path).cells[name].formula = cells_source(dict(c, name=name))
 
     def op_del_cells(self, path, name):
         s = self.space(path)
@@ -398,7 +398,7 @@ def ref_value(vs):
 
 def mk_rcells(c):
     return R.RCells(c["name"], c["params"], c["expr"], c.get("cached", True),
-                    c.get("allow_none"), c.get("form", "lambda"), c.get("doc"))
+                    c.get("allow_none"), c.get("form", "lambda"), c.get("doc"), c.get("tick", True))
 
 
 def _drop_inputs(rm, pred):
